@@ -686,7 +686,7 @@ fn gated_child(scenario: &str, seed: u64, stagger_ns: u64) -> i32 {
         }));
         // one holder after the other: wait until it sits at its hold point
         let t0 = Instant::now();
-        while G_ARRIVED.load(SeqCst) < i + 1 - unreached && t0.elapsed() < Duration::from_secs(3) {
+        while G_ARRIVED.load(SeqCst) < i + 1 - unreached && t0.elapsed() < Duration::from_millis(1500) {
             std::thread::sleep(Duration::from_micros(200));
         }
         if G_ARRIVED.load(SeqCst) < i + 1 - unreached {
